@@ -617,7 +617,11 @@ func (a *act) applyExtern(xs *ExternSpec, sig *types.Signature, args []Val, cs c
 	post := st
 	var result Val
 	if xs.Pure {
-		result = a.pureUF(xs.Name, args, rtyp, st)
+		uargs := args
+		if xs.Heap {
+			uargs = append(append([]Val{}, args...), Val{Typ: types.Typ[types.Int], T: []Term{e.heapVersion(st)}})
+		}
+		result = a.pureUF(xs.Name, uargs, rtyp, st)
 	} else {
 		henv := e.newEnv(a, pre)
 		henv.vars = env.vars
